@@ -6,6 +6,7 @@ import ast
 from ..core import AnalysisError, call_name, dotted, kwarg, norm, walk_no_nested
 from ..guards import sites
 from ..registry import describe, rule
+from .. import tmatch as tm
 from ..util import calls_named, returns_of
 from . import c14, c16
 
@@ -53,54 +54,67 @@ def messages(rc):
     cls = repo.cls(EI, "BeliefPropagation")
     u = cls.methods["_update_beliefs"]
     p = u.params  # self, sending_clique, receiving_clique, operation
-    d = {n.targets[0].id: n.value for n in walk_no_nested(u.node) if isinstance(n, ast.Assign) and isinstance(n.targets[0], ast.Name)}
     snd, rcv, op = p[1], p[2], p[3]
-    sep = norm(d.get("sepset", ast.Constant(value=None)))
-    key = norm(d.get("sepset_key", ast.Constant(value=None)))
-    sig = d.get("sigma")
-    rc.ob(f"_update_beliefs: sepset = {sep}; key = {key}; sigma = {norm(sig, 140) if sig is not None else None}")
-    if sep != f"frozenset({snd}).intersection(frozenset({rcv}))" and sep != f"frozenset({rcv}).intersection(frozenset({snd}))":
+    P = {"_snd": snd, "_rcv": rcv, "_op": op}
+    _, bs = tm.find(u.node, "_SEP = frozenset(_snd).intersection(frozenset(_rcv))", P)
+    if bs is None:
+        _, bs = tm.find(u.node, "_SEP = frozenset(_rcv).intersection(frozenset(_snd))", P)
+    rc.ob(f"_update_beliefs: sepset = intersection of the two cliques: {bs is not None}")
+    if bs is None:
         rc.fail(u, u.node, "the sepset is the intersection of the two cliques", construct="sepset")
-    if key not in (f"frozenset(({snd}, {rcv}))", f"frozenset(({rcv}, {snd}))", f"frozenset([{snd}, {rcv}])"):
+        bs = dict(P, _SEP="sepset")
+    bk = None
+    for t in ("_KEY = frozenset((_snd, _rcv))", "_KEY = frozenset((_rcv, _snd))", "_KEY = frozenset([_snd, _rcv])", "_KEY = frozenset([_rcv, _snd])"):
+        bk = bk or tm.find(u.node, t, bs)[1]
+    rc.ob(f"_update_beliefs: sepset key = unordered clique pair: {bk is not None}")
+    if bk is None:
         rc.fail(u, u.node, "sepset beliefs are stored under the unordered pair of cliques", construct="sepset key")
-    oks = isinstance(sig, ast.Call) and isinstance(sig.func, ast.Call) and call_name(sig.func) == "getattr" and norm(sig.func.args[0]) == f"self.clique_beliefs[{snd}]" \
-        and dotted(sig.func.args[1]) == op and norm(sig.args[0]) == f"list(frozenset({snd}) - sepset)" and isinstance(kwarg(sig, "inplace"), ast.Constant) and kwarg(sig, "inplace").value is False
-    if not oks:
-        rc.fail(u, sig if sig is not None else u.node, "sigma must be the SENDING clique's belief with the variables outside the sepset eliminated by the requested operation, out of place",
+        bk = dict(bs, _KEY="sepset_key")
+    nsig, bg = tm.find(u.node, "_SIG = getattr(self.clique_beliefs[_snd], _op)(list(frozenset(_snd) - _SEP), inplace=False)", bk)
+    rc.ob(f"_update_beliefs: sigma = sending belief with the non-sepset variables eliminated by `{op}`, out of place: {bg is not None}")
+    if bg is None:
+        anysig = [n for n in walk_no_nested(u.node) if isinstance(n, ast.Assign) and isinstance(n.value, ast.Call) and isinstance(n.value.func, ast.Call) and call_name(n.value.func) == "getattr"]
+        rc.fail(u, anysig[0] if anysig else u.node, "sigma must be the SENDING clique's belief with the variables outside the sepset eliminated by the requested operation, out of place",
                 construct="sigma")
-    upd = [n for n in walk_no_nested(u.node) if isinstance(n, ast.AugAssign) and norm(n.target) == f"self.clique_beliefs[{rcv}]"]
-    oku = upd and isinstance(upd[0].op, ast.Mult) and norm(upd[0].value).replace("\n", " ") == "sigma / self.sepset_beliefs[sepset_key] if self.sepset_beliefs[sepset_key] else sigma"
+        bg = dict(bk, _SIG=dotted(anysig[0].targets[0]) if anysig else "sigma")
+    upd = [n for n in walk_no_nested(u.node) if isinstance(n, ast.AugAssign) and tm.is_(n.target, "self.clique_beliefs[_rcv]", P) is not None]
+    oku = upd and isinstance(upd[0].op, ast.Mult) and tm.is_(upd[0].value, "_SIG / self.sepset_beliefs[_KEY] if self.sepset_beliefs[_KEY] else _SIG", bg) is not None
     rc.ob(f"_update_beliefs: receiving update {norm(upd[0], 140) if upd else None}")
     if not oku:
         rc.fail(u, upd[0] if upd else u.node, "the RECEIVING clique's belief must be multiplied by sigma divided by the previous sepset belief (or by sigma when there is none yet)",
                 construct="receiving update")
-    st = [n for n in walk_no_nested(u.node) if isinstance(n, ast.Assign) and norm(n.targets[0]) == "self.sepset_beliefs[sepset_key]"]
-    if not st or dotted(st[0].value) != "sigma" or (upd and st[0].lineno < upd[0].lineno):
+    st = tm.find_all(u.node, "self.sepset_beliefs[_KEY] = _SIG", bg)
+    if not st or (upd and st[0][0].lineno < upd[0].lineno):
         rc.fail(u, u.node, "after the update the sepset belief becomes sigma", construct="sepset update")
     # schedule
     c = cls.methods["_calibrate_junction_tree"]
-    t = norm(c.node, 100000)
-    init = "clique: self.junction_tree.get_factors(clique) for clique in self.junction_tree.nodes()" in t
+    init = tm.has(c.node, "self.clique_beliefs = {_c: self.junction_tree.get_factors(_c) for _c in self.junction_tree.nodes()}")
     calls = sites(c.node, lambda n: isinstance(n, ast.Call) and call_name(n) == "_update_beliefs")
     up = down = False
+    roots = [n for n in walk_no_nested(c.node) if isinstance(n, ast.For) and tm.is_(n.iter, "self.junction_tree.nodes()") is not None and isinstance(n.target, ast.Name)]
+    root = roots[0].target.id if roots else None
     for s in calls:
-        a = [norm(x) for x in s.node.args]
         opk = dotted(kwarg(s.node, "operation"))
-        lv = [(norm(tg), norm(it)) for tg, it in s.loops]
-        rc.ob(f"schedule: _update_beliefs({', '.join(a)}, operation={opk}) in {lv[-1] if lv else None}")
+        lv = s.loops[-1] if s.loops else None
+        rc.ob(f"schedule: {norm(s.node, 100)} in {(norm(lv[0]), norm(lv[1])) if lv else None}")
         if opk != "operation":
             rc.fail(c, s.node, "every message of one calibration must use the same operation", construct="schedule operation")
-        if a == ["neighbor_clique", "clique"] and lv and lv[-1] == ("neighbor_clique", "neighbors"):
+        if lv is None or not isinstance(lv[0], ast.Name) or root is None:
+            continue
+        lvn = lv[0].id
+        b1 = tm.is_(s.node, "self._update_beliefs(_n, _root, operation=operation)", {"_n": lvn, "_root": root})
+        if b1 is not None and isinstance(lv[1], ast.Name) and tm.has(c.node, "_NB = self.junction_tree.neighbors(_root)", {"_NB": lv[1].id, "_root": root}):
             up = True
-        if a == ["edge[0]", "edge[1]"] and lv and lv[-1] == ("edge", "bfs_edges"):
+        b2 = tm.is_(s.node, "self._update_beliefs(_e[0], _e[1], operation=operation)", {"_e": lvn})
+        if b2 is not None and isinstance(lv[1], ast.Name) and (tm.has(c.node, "_BE = __F.bfs_edges(self.junction_tree, _root)", {"_BE": lv[1].id, "_root": root})):
             down = True
     if not init:
         rc.fail(c, c.node, "clique beliefs start as the clique potentials of the junction tree", construct="initial beliefs")
     if not up:
         rc.fail(c, c.node, "upward pass: every neighbour sends to the root clique", construct="upward pass")
-    if not down or "bfs_edges(self.junction_tree, clique)" not in t.replace("\n", " ").replace("  ", " "):
+    if not down:
         rc.fail(c, c.node, "downward pass: messages along BFS edges from the root, parent to child", construct="downward pass")
-    if "frozenset(edge): None for edge in self.junction_tree.edges()" not in t:
+    if not tm.has(c.node, "self.sepset_beliefs = {frozenset(_e): None for _e in self.junction_tree.edges()}"):
         rc.fail(c, c.node, "sepset beliefs start empty for every tree edge", construct="initial sepsets")
     for name, want in (("calibrate", "marginalize"), ("max_calibrate", "maximize")):
         m = cls.methods[name]
@@ -111,21 +125,42 @@ def messages(rc):
             rc.fail(m, m.node, f"{name} must calibrate with `{want}`", construct=f"{name} operation")
     # convergence
     k = cls.methods["_is_converged"]
-    tk = norm(k.node, 100000)
-    okk = "marginal_1 != marginal_2 or marginal_1 != self.sepset_beliefs[sepset_key]" in tk and "list(frozenset(edge[0]) - sepset)" in tk and "list(frozenset(edge[1]) - sepset)" in tk \
-        and tk.count("inplace=False") >= 2
+    okk = False
+    for lp in [n for n in walk_no_nested(k.node) if isinstance(n, ast.For) and isinstance(n.target, ast.Name) and tm.is_(n.iter, "self.junction_tree.edges()") is not None]:
+        B = {"_e": lp.target.id}
+        _, b1 = tm.find(lp, "_SEP = frozenset(_e[0]).intersection(frozenset(_e[1]))", B)
+        _, b2 = tm.find(lp, "_KEY = frozenset(_e)", b1 or B)
+        if b1 is None or b2 is None:
+            continue
+        _, m1 = tm.find(lp, "_MA = getattr(self.clique_beliefs[_e[0]], operation)(list(frozenset(_e[0]) - _SEP), inplace=False)", b2)
+        _, m2 = tm.find(lp, "_MB = getattr(self.clique_beliefs[_e[1]], operation)(list(frozenset(_e[1]) - _SEP), inplace=False)", m1 or b2)
+        if m1 is None or m2 is None:
+            continue
+        for s_ in sites(lp, lambda n: isinstance(n, ast.Return) and isinstance(n.value, ast.Constant) and n.value.value is False):
+            if any(pol and tm.is_(t, "_MA != _MB or _MA != self.sepset_beliefs[_KEY]", m2) is not None for t, pol in s_.conds):
+                okk = True
     rc.ob(f"_is_converged compares both adjacent marginals and the sepset belief: {okk}")
     if not okk:
         rc.fail(k, k.node, "calibration = for every edge both cliques' marginals over the sepset agree with each other and with the sepset belief", construct="convergence test")
     # query potentials
     q = cls.methods["_query"]
-    tq = norm(q.node, 100000)
-    okq = "self.clique_beliefs[child_node] / self.sepset_beliefs[frozenset([parent_node, child_node])]" in tq.replace("\n", " ") and "clique_potential_list = [self.clique_beliefs[root_node]]" in tq
+    _, b0 = tm.find(q.node, "_L = [self.clique_beliefs[_root]]")
+    okq = False
+    if b0 is not None:
+        for n, bq in tm.find_all(q.node, "_L.append(self.clique_beliefs[_ch] / self.sepset_beliefs[frozenset([_pa, _ch])])", b0):
+            okq = okq or tm.has(q.node, "_ST.add_factors(*_L)", {"_L": b0["_L"]})
     rc.ob(f"_query: sub-tree potentials = root belief, then belief(child)/sepset(parent, child): {okq}")
     if not okq:
         rc.fail(q, q.node, "query sub-tree potentials must be the root's belief and, for every other clique, its belief divided by the sepset belief towards its parent",
                 construct="query potentials")
-    if "if not is_calibrated" not in tq or "self.calibrate()" not in tq:
+    cal = sites(q.node, lambda n: isinstance(n, ast.Call) and tm.is_(n, "self.calibrate()") is not None)
+    _, bi = tm.find(q.node, "_IC = self._is_converged(operation=operation)")
+    def _guard(t, pol):
+        if bi is None:
+            return False
+        return (tm.is_(t, "not _IC", bi) is not None and pol) or (tm.is_(t, "_IC", bi) is not None and not pol) or \
+            (tm.is_(t, "not self._is_converged(operation=operation)") is not None and pol)
+    if not cal or not any(_guard(t, pol) or (tm.is_(t, "not self._is_converged(operation=operation)") is not None and pol) for s_ in cal for t, pol in s_.conds):
         rc.fail(q, q.node, "a query must calibrate the tree first", construct="calibrate before query")
 
 
